@@ -5,6 +5,7 @@ from typing import Callable, Dict, List
 
 from . import rules_algebra as RA
 from . import rules_kernels as RK
+from . import rules_exc as RE
 from . import rules_poly as RP
 from . import rules_shapes as RS
 from .report import Ctx
@@ -107,6 +108,18 @@ def c12(ctx: Ctx) -> None:
     RP.rule_lp_bounds(ctx)
 
 
+def c14(ctx: Ctx) -> None:
+    RE.rule_raise_classes(ctx)
+    RE.rule_constructed_not_raised(ctx)
+    RE.rule_asserts(ctx)
+    RE.rule_reader_validates(ctx)
+    RE.rule_validator_covers(ctx)
+    RP.rule_dispatcher(ctx)
+    RP.rule_decline_discipline(ctx)
+    for k in RP.STATUS_TABLES:
+        RP.rule_status_table(ctx, k)
+
+
 def c19(ctx: Ctx) -> None:
     RS.rule_eq(ctx)
     RS.rule_hash(ctx)
@@ -161,7 +174,7 @@ def run_property(ctx: Ctx) -> None:
     spec = PROPS[ctx.prop]
     spec["fn"](ctx)
 
-_tmp = {"C01": c01, "C02": c02, "C03": c03, "C04": c04, "C06": c06, "C07": c07, "C08": c08, "C11": c11, "C12": c12, "C15": c15, "C16": c16, "C17": c17, "C19": c19}
+_tmp = {"C01": c01, "C02": c02, "C03": c03, "C04": c04, "C06": c06, "C07": c07, "C08": c08, "C11": c11, "C12": c12, "C14": c14, "C15": c15, "C16": c16, "C17": c17, "C19": c19}
 for _k, _f in _tmp.items():
     PROPS[_k] = {"fn": _f, "level": "other", "explanation": "tbd", "assumptions": []}
 
